@@ -225,3 +225,84 @@ def replay_gate(rec, verbose=True):
     if kind == "not-compiled":
         return not res.ok
     return False
+
+
+# ---------------------------------------------------------------------------------------------
+# C05: accepted programs do not go wrong (safety oracle, both optimisation levels)
+# ---------------------------------------------------------------------------------------------
+ALLOWED_RUNTIME = ("ZeroDivisionError",)
+
+
+def safe(prop, case, agg, units=None):
+    from . import lang
+    from .engine import case_prog, vm_outcome
+    from .nslapi import compile_src, link
+
+    units = case["units"] if units is None else units
+    src = case["src"] if "src" in case else lang.render(case_prog(case, units), case.get("mode", "min"))
+    feat = case.get("feat") or case["desc"]
+    for opt in (False, True):
+        res = compile_src(src, {"optimize": opt})
+        if not res.ok and len(units) > 1:
+            h = len(units) // 2
+            safe(prop, case, agg, units[:h])
+            safe(prop, case, agg, units[h:])
+            return
+        agg.evals += 1
+        udesc = (units[0].get("desc") if len(units) == 1 else None) or feat
+        if res.status == "reject":
+            agg.stats["rejected-by-front-end"] += 1
+            continue
+        agg.nontrivial += 1
+        if res.status == "internal":
+            agg.fail({"key": f"{prop}|{case['fam']}|after-gate:{'lower' if not res.file or 'Lower' in res.file or 'LinearIR' in res.file else 'ir-pass'}|{res.exc}@{res.where}|{udesc}",
+                      "source": src, "options": {"optimize": opt}, "expected": "a program that passes the front end compiles",
+                      "observed": f"{res.cls()} {res.msg or ''} (optimize={opt})"})
+            continue
+        try:
+            program = link(res.module)
+        except BaseException as e:
+            agg.fail({"key": f"{prop}|{case['fam']}|link|{type(e).__name__}|{udesc}", "source": src, "options": {"optimize": opt},
+                      "expected": "links", "observed": repr(e)[:200]})
+            continue
+        for u in units:
+            ud = u.get("desc") or feat
+            for args, globs in u["inputs"]:
+                agg.evals += 1
+                agg.nontrivial += 1
+                got = vm_outcome(program, u["entry"], args, globs)
+                if got[0] == "exc" and got[1] == "IndexError" and "src" not in case:
+                    # defined failure only if the reference confirms a dynamic index really is out of range
+                    from .engine import ref_outcome
+                    ref = ref_outcome(case_prog(case, units), u["entry"], args, globs)
+                    if ref[0] == "unspec" and ref[1] == "index out of range":
+                        agg.stats["defined-runtime-failure:IndexError"] += 1
+                        continue
+                if got[0] == "ok" or (got[0] == "exc" and got[1] in ALLOWED_RUNTIME):
+                    if got[0] == "exc":
+                        agg.stats["defined-runtime-failure:" + got[1]] += 1
+                    continue
+                where = "timeout" if got[0] == "timeout" else f"{got[1]}@{got[2]}"
+                agg.fail({"key": f"{prop}|{case['fam']}|run|{where}|{ud}", "source": src if len(units) == 1 else lang.render(case_prog(case, [u]), case.get("mode", "min")),
+                          "options": {"optimize": opt}, "entry": u["entry"], "inputs": {"args": args, "globals": globs},
+                          "expected": "runs (or fails with division by zero / index out of range only)", "observed": f"{where} (optimize={opt})"})
+                break
+    if len(agg.samples) < 2:
+        agg.samples.append({"source": src[:500]})
+
+
+def replay_safe(rec, verbose=True):
+    from .engine import vm_outcome
+    from .nslapi import compile_src, link
+
+    res = compile_src(rec["source"], rec.get("options"))
+    if verbose:
+        print(rec["source"], "\noptions", rec.get("options"), "\ncompile:", res.cls(), res.msg or "")
+    if res.status == "internal":
+        return True
+    if not res.ok or "inputs" not in rec:
+        return False
+    got = vm_outcome(link(res.module), rec["entry"], rec["inputs"]["args"], rec["inputs"]["globals"])
+    if verbose:
+        print("inputs", rec["inputs"], "->", got)
+    return not (got[0] == "ok" or (got[0] == "exc" and got[1] in ALLOWED_RUNTIME))
